@@ -64,7 +64,10 @@ def want_set(triples):
     return {(core.uncodes(t["g"]), core.uncodes(t["k"]), tuple(core.uncodes(v) for v in t["vals"])) for t in triples}
 
 
-def mk_tree(x, R, delim="="):
+BADTEXT = ["# c\n[broken\nK=1\n", "# c\n[S] trailing\nK=1\n", "# c\n[]\nK=1\n"]      # missing bracket / text after section / empty name: all on line 2
+
+
+def mk_tree(x, R, delim="=", badkind=0):
     """create the tree on disk under R (ECONFTOOL_ROOT)"""
     shutil.rmtree(R, ignore_errors=True)
     layers = [R + "/usr/etc", R + "/etc"]
@@ -80,14 +83,14 @@ def mk_tree(x, R, delim="="):
             else:
                 data = p_layers.body(i, 0, x["shp"][0]) if kind == "regular" else ""
                 if bad == (i, 0):
-                    data = "# c\n[broken\nK=1\n"
+                    data = BADTEXT[badkind % len(BADTEXT)]
                 open(p, "w").write(data.replace("=", delim))
             paths[p] = (i, 0)
         for n in x["drop"][i - 1]:
             p = d + "/cfg.conf.d/" + p_layers.NAMES[n]
             data = p_layers.body(i, n, x["shp"][1])
             if bad == (i, n):
-                data = "# c\n[broken\nK=1\n"
+                data = BADTEXT[badkind % len(BADTEXT)]
             open(p, "w").write(data.replace("=", delim))
             paths[p] = (i, n)
     return paths
@@ -125,7 +128,7 @@ def check(pid, tier, seed):
         variant = i % 3
         delim = {0: "=", 1: ":", 2: " "}[variant]
         opts = {0: [], 1: ["--delimiters=:", "--comment=#"], 2: ["--delimiters=spaces"]}[variant]
-        paths = mk_tree(x, R, delim)
+        paths = mk_tree(x, R, delim, badkind=i // 3)
         out = {}
         for cmd in ("show", "syntax", "cat"):
             out[cmd] = run_tool(tool, R, opts + [cmd, "cfg.conf"])
@@ -212,7 +215,7 @@ def check(pid, tier, seed):
     rc = verdict.finish()
     cov = {"states": r.distinct, "transitions": r.generated, "traces_validated_against_impl": ok,
            "evaluations": len(recs) * 3, "distinct_nontrivial": nn,
-           "rule": "MC_Tool exports every two-layer tree (main x4 per layer x subsets of %s drop-in names per layer) x content shapes {both, group-less only, sections only, header-only section in the main file, drop-ins holding only comments} x {no malformed file, each consulted regular file malformed}; %d trees materialised under $ECONFTOOL_ROOT (/usr/etc, /etc) with delimiter '=', ':' (--delimiters) and blanks (--delimiters=spaces); the built econftool runs show, syntax, cat (stdbuf keeps stdout/stderr order); stdout parsed into (section, key, value lines) triples and compared as sets with Tool!ShowCmd / CatCmd, exit status with SyntaxCmd, error location = malformed file + line; plus single absolute files; the ASan/UBSan build of the tool runs show on every tree. non-trivial = result with group-less keys or >= 2 sections or a malformed file." % (names, len(recs)),
+           "rule": "MC_Tool exports every two-layer tree (main x4 per layer x subsets of %s drop-in names per layer) x content shapes {both, group-less only, sections only, header-only section in the main file, drop-ins holding only comments} x {no malformed file, each consulted regular file malformed (missing bracket, text after the section, empty section name in turn)}; %d trees materialised under $ECONFTOOL_ROOT (/usr/etc, /etc) with delimiter '=', ':' (--delimiters) and blanks (--delimiters=spaces); the built econftool runs show, syntax, cat (stdbuf keeps stdout/stderr order); stdout parsed into (section, key, value lines) triples and compared as sets with Tool!ShowCmd / CatCmd, exit status with SyntaxCmd, error location = malformed file + line; plus single absolute files; the ASan/UBSan build of the tool runs show on every tree. non-trivial = result with group-less keys or >= 2 sections or a malformed file." % (names, len(recs)),
            "samples": [{"tree": p_layers.tree_text({"main": recs[5]["main"], "drop": recs[5]["drop"], "shp": recs[5]["shp"]}), "show": recs[5]["show"]}],
            "exhaustive": False, "trusted_base": ["TLC 1.8.0", "gcc (plain and ASan/UBSan builds of util/econftool.c + lib)", "coreutils stdbuf"]}
     core.write_evidence(pid, tier, seed, "model_checking", cov, ["the printed layout is not compared, only the parsed triples", "edit/revert are not part of the property"], time.time() - t0, len(verdict.violations))
